@@ -4,7 +4,58 @@ from vlib.core import Ctx, ddmin
 
 ID = "C08"
 MODULES = ["IoraModel.Props.C08"]
-OBLIGATIONS = []   # filled below
+OBLIGATIONS = [
+    {"id": "C08_G_wheel", "theorem": "Iora.C08.G_wheel_shapes", "kind": "proved",
+     "statement": "Gen conformance: schedule re-tests _accepting under _wheelMutex (F32); collectFromBucket re-inserts when deadline-now > tick (F21); bucket loops walk a detached vector (F22); cascade/drain fire on deadline <= now"},
+    {"id": "C08_W6", "theorem": "Iora.C08.W6_lifecycle_order", "kind": "proved",
+     "statement": "Gen conformance: stop()/drain() clear _accepting, join the tick thread, then clear/collect entries"},
+    {"id": "C08_W0", "theorem": "Iora.C08.W0_levels_in_range", "kind": "proved",
+     "statement": "every reachable wheel has one tick counter per level and every entry on an existing level"},
+    {"id": "C08_W1", "theorem": "Iora.C08.W1_conservation", "kind": "proved",
+     "statement": "for every op list: pending ids + ids that left (fired/cancelled/drained/cleared) = issued ids as multisets, issued ids distinct"},
+    {"id": "C08_W1b", "theorem": "Iora.C08.W1_fires_at_most_once", "kind": "proved",
+     "statement": "no id is fired twice in any history; a fired id was issued and is no longer pending"},
+    {"id": "C08_W2a", "theorem": "Iora.C08.W2_cancel_iff_pending", "kind": "proved", "statement": "cancel = true iff the id is pending"},
+    {"id": "C08_W2a2", "theorem": "Iora.C08.W2_resched_iff_pending", "kind": "proved", "statement": "reschedule = true iff the id is pending"},
+    {"id": "C08_W2b", "theorem": "Iora.C08.W2_cancelled_never_fires", "kind": "proved",
+     "statement": "after cancel = true, for every continuation, the id is never pending again and never fired"},
+    {"id": "C08_W2c", "theorem": "Iora.C08.W2_false_means_gone", "kind": "proved", "statement": "cancel = false => never issued or already left"},
+    {"id": "C08_W3", "theorem": "Iora.C08.W3_not_early", "kind": "proved",
+     "statement": "for every history and every clock value: an entry fired by advance() carries the deadline of the caller's latest (re)schedule and now >= deadline - tick"},
+    {"id": "C08_W3d", "theorem": "Iora.C08.W3_drain_not_early", "kind": "proved", "statement": "drain fires only entries with deadline <= now"},
+    {"id": "C08_W4", "theorem": "Iora.C08.W4_cascade_terminates", "kind": "proved",
+     "statement": "cascadeDown: detached loops are structural; the level recursion needs at most `levels` calls (fuel adequacy)"},
+    {"id": "C08_W4_F22", "theorem": "Iora.C08.W4_legacy_walk_livelock", "kind": "proved", "finding": "F22",
+     "statement": "on record: the UNREPAIRED cascade walk over the live bucket runs forever on two beyond-span entries (all fuel values)"},
+    {"id": "C08_W5", "theorem": "Iora.C08.W5_cascade_exact", "kind": "proved", "statement": "entries fired from a higher level have deadline <= now"},
+    {"id": "C08_W7a", "theorem": "Iora.C08.W7_refused", "kind": "proved", "statement": "schedule on a non-accepting wheel returns 0 and stores nothing"},
+    {"id": "C08_W7b", "theorem": "Iora.C08.W7_stopped_forever", "kind": "proved",
+     "statement": "after stop()/drain(), for every continuation: never accepting again, nothing linked"},
+    {"id": "C08_W7c", "theorem": "Iora.C08.W7_concurrent", "kind": "proved",
+     "statement": "all interleavings of schedule() with stop(): once stop() returned no entry of the racing schedule is linked (uses Gen: re-test under lock)"},
+    {"id": "C08_W7_F32", "theorem": "Iora.C08.W7_without_retest_witness", "kind": "proved", "finding": "F32",
+     "statement": "on record: without the re-test a schedule exists that leaves an accepted entry in the stopped wheel"},
+    {"id": "C08_G_service", "theorem": "Iora.C08.G_service_shapes", "kind": "proved",
+     "statement": "Gen conformance: re-tests under _mutex, cancel/collect under _mutex, erase before hand-over, pre-announce under lock, drain restore under lock, stop() clears _accepting and publishes Stopped under lock (F23), periodic cancel guard (F41)"},
+    {"id": "C08_S1", "theorem": "Iora.C08.S1_collected_exactly_once", "kind": "proved",
+     "statement": "for every list of atomic steps: started + skipped-by-cancel + waiting = collected (multisets); no (id, firing) collected or started twice"},
+    {"id": "C08_S2", "theorem": "Iora.C08.S2_collected_is_due", "kind": "proved",
+     "statement": "every collected invocation has tp <= now and tp = t0 + k*iv with (t0, iv) the caller's request; k-th periodic firing not before k intervals"},
+    {"id": "C08_S3a", "theorem": "Iora.C08.S3_cancelled_never_starts", "kind": "proved",
+     "statement": "after cancel = true, for every continuation, no handler of the id starts (incl. invocations collected before the cancel)"},
+    {"id": "C08_S3b", "theorem": "Iora.C08.S3_false_means_not_pending", "kind": "proved",
+     "statement": "cancel = false => no live record and no periodic entry of the id"},
+    {"id": "C08_S3c", "theorem": "Iora.C08.S3_record_accounting", "kind": "proved",
+     "statement": "collect: every record stays, is handed over (live) or was cancelled (dropped)"},
+    {"id": "C08_S3d", "theorem": "Iora.C08.S3_other_steps_keep_records", "kind": "proved", "statement": "no step other than collect removes a record"},
+    {"id": "C08_S4a", "theorem": "Iora.C08.S4_drain_success", "kind": "proved",
+     "statement": "drain succeeds only with no live record, executing = 0, nothing waiting, nothing running"},
+    {"id": "C08_S4b", "theorem": "Iora.C08.S4_after_stop", "kind": "proved",
+     "statement": "after stop() returned, for every continuation: no handler starts, state stays Stopped, never accepting (S6)"},
+    {"id": "C08_S4c", "theorem": "Iora.C08.S4_stop_waits_for_handlers", "kind": "proved",
+     "statement": "stop() returns only after the loop thread exited with nothing collected left to run"},
+    {"id": "C08_S6", "theorem": "Iora.C08.S6_refused", "kind": "proved", "statement": "schedule* on a non-accepting service returns 0 and stores nothing"},
+]
 ANCHOR_FILES = ["include/iora/core/timing_wheel.hpp", "include/iora/core/timer.hpp"]
 NS = 1000000
 
@@ -132,16 +183,7 @@ def gen_wheel_case(rng, idx, geom=None, nops=None):
 def boundary_cases():
     """deterministic witnesses of the candidate defects and level-boundary placements (always run)"""
     cs = []
-    # F21: 300 ms timer scheduled 1 ms before a 400 ms-late tick (10 ms x 64 x 2); 15 ms timer and a 2.5-tick hiccup
-    cs.append({"cat": "wheel-F21", "geom": [10, 64, 2], "ops": ["reset 10 64 2", "start", "adv 10000000", "clk 399000000", "sched 300", "adv 400000000", "pending", "dump"]})
-    cs.append({"cat": "wheel-F21", "geom": [10, 8, 2], "ops": ["reset 10 8 2", "start", "clk 24000000", "sched 15", "adv 25000000", "pending", "adv 35000000", "adv 45000000", "pending"]})
-    # F22: two timers beyond the wheel span (20 ms x 8 x 2 = 1280 ms) scheduled 5 ticks after start
-    cs.append({"cat": "wheel-F22", "geom": [20, 8, 2], "ops": ["reset 20 8 2", "start"] + ["adv %d" % (20000000 * i) for i in range(1, 6)] +
-               ["sched 1400", "sched 1400", "dump"] + ["adv %d" % (20000000 * i) for i in range(6, 12)] + ["pending", "dump"]})
-    cs.append({"cat": "wheel-F22", "geom": [5, 16, 1], "ops": ["reset 5 16 1", "start", "sched 80", "sched 160", "sched 161", "dump"] + ["adv %d" % (5000000 * i) for i in range(1, 40)] + ["pending"]})
-    # F32: schedule() parked between the flag test and the lock while stop() completes
-    cs.append({"cat": "wheel-F32", "geom": [20, 8, 2], "ops": ["reset 20 8 2", "start", "sched 100", "race 5", "pending", "adv 20000000", "adv 40000000", "pending", "dump"]})
-    cs.append({"cat": "wheel-F32", "geom": [10, 8, 2], "ops": ["reset 10 8 2", "race 5", "pending"]})
+    # (witnesses of F21 / F22 / F32 live in corpus/C08/*.json and always run first)
     # level boundaries on every geometry
     for (t, s, l) in GEOMETRIES:
         ops = ["reset %d %d %d" % (t, s, l), "start"]
@@ -361,12 +403,7 @@ def gen_svc_winddown(c, impl_so_far=None):
 
 def svc_boundary_cases():
     cs = []
-    # F34: periodic invocation collected behind a gate handler, cancelled (true) while it waits, must not start afterwards
-    cs.append({"cat": "svc-F34", "kind": "svc", "limits": [10000, 1000, 86400000],
-               "ops": ["reset 10000 1000 86400000", "at 5000000 g", "per 5000000 n", "clk 5000000", "wake", "cancel 2", "release", "clk 20000000", "wake", "inflight"]})
-    # the same window reached from inside the loop thread: a handler cancels a periodic timer collected in the same batch
-    cs.append({"cat": "svc-F34", "kind": "svc", "limits": [10000, 1000, 86400000],
-               "ops": ["reset 10000 1000 86400000", "at 3000000 x2", "per 3000000 n", "clk 3000000", "wake", "clk 9000000", "wake", "inflight"]})
+    # (witnesses of F41 live in corpus/C08/*.json)
     # cancel versus collect for a one-shot: collected behind a gate => cancel answers false and the handler runs once
     cs.append({"cat": "svc-cancel-collect", "kind": "svc", "limits": [10000, 1000, 86400000],
                "ops": ["reset 10000 1000 86400000", "at 1000000 g", "at 1000000 n", "at 2000000 n", "clk 1000000", "wake", "cancel 2", "cancel 3", "release", "clk 5000000", "wake", "inflight"]})
@@ -485,23 +522,165 @@ def monitor_svc(c, impl):
     return bad
 
 
+# ------------------------------------------------------------------ real-time part (safety monitors only)
+def rt_scenarios(rng, scale):
+    sc = [("f23", rng.below(10 ** 6), 0)]
+    for _ in range(8 * scale):
+        sc.append(("svc", rng.below(10 ** 6), 300))
+    for _ in range(4 * scale):
+        sc.append(("svcdrain", rng.below(10 ** 6), 250))
+    for _ in range(6 * scale):
+        sc.append(("wheel", rng.below(10 ** 6), 600))
+    return sc
+
+
+def monitor_rt(kind, text):
+    """C08 safety monitors over one real-time history (times: ns on the steady clock)."""
+    bad = []
+    if text.startswith("throw:") or not text or text == "-":
+        return ["RT0: scenario failed: %s" % text[:100]], {}
+    tick = 5 * NS if kind == "wheel" else 0
+    sched, refused, cancels, resch, H, X = {}, [], {}, {}, {}, []
+    end = 0
+    for e in text.split(";"):
+        f = e.split(":")
+        if f[0] == "S":
+            i = int(f[1])
+            rec = {"tcall": int(f[2]), "tret": int(f[3]), "delay": int(f[4]), "per": f[5] == "P"}
+            if i == 0:
+                refused.append(rec)
+            else:
+                if i in sched:
+                    bad.append("RT1: id %d issued twice" % i)
+                sched[i] = rec
+        elif f[0] == "C":
+            cancels.setdefault(int(f[1]), []).append({"tcall": int(f[2]), "tret": int(f[3]), "ok": f[4] == "1"})
+        elif f[0] == "R":
+            resch.setdefault(int(f[1]), []).append({"tcall": int(f[2]), "tret": int(f[3]), "delay": int(f[4]), "ok": f[5] == "1"})
+        elif f[0] == "H":
+            H.setdefault(int(f[1]), []).append((int(f[2]), int(f[3])))
+        elif f[0] == "X":
+            X.append({"what": f[1], "tcall": int(f[2]), "tret": int(f[3]), "ok": f[4] == "1"})
+        elif f[0] == "Z":
+            end = int(f[2])
+    stop = [x for x in X if x["what"] == "stop"]
+    drains = [x for x in X if x["what"] == "drain"]
+    stats = {"scheduled": len(sched), "handlers": sum(len(v) for v in H.values()), "cancel_ok": sum(1 for v in cancels.values() for c in v if c["ok"]),
+             "refused_after_stop": 0}
+    for i, runs in H.items():
+        runs.sort()
+        if i not in sched:
+            bad.append("RT1: a handler runs for id %d which schedule() never returned (refused or unknown)" % i)
+            continue
+        sc = sched[i]
+        if sc["per"]:
+            for k, (ts, te) in enumerate(runs, 1):
+                if ts < sc["tcall"] + k * sc["delay"]:
+                    bad.append("RT2: firing %d of periodic timer %d starts %d ns before k intervals after schedulePeriodic was called" % (k, i, sc["tcall"] + k * sc["delay"] - ts))
+        else:
+            if len(runs) > 1:
+                bad.append("RT1: one-shot handler %d ran %d times" % (i, len(runs)))
+            cands = [sc] + [r for r in resch.get(i, []) if r["ok"]]
+            last = [c for c in cands if not any(o["tcall"] > c["tret"] for o in cands if o is not c)]
+            earliest = min(c["tcall"] + c["delay"] for c in last)
+            ts = runs[0][0]
+            if ts < earliest - tick:
+                bad.append("RT2: timer %d starts %d ns before its deadline (allowed: %d ns)" % (i, earliest - ts, tick))
+        oks = [c for c in cancels.get(i, []) if c["ok"]]
+        if len(oks) > 1:
+            bad.append("RT3: cancel(%d) answered true %d times" % (i, len(oks)))
+        for c in oks:
+            margin = 1000000 if sc["per"] else 0     # periodic: the guard check precedes the handler body by a few instructions
+            late = [ts for ts, te in runs if ts > c["tret"] + margin]
+            if late:
+                bad.append("RT3: handler of timer %d starts %d ns after cancel(%d) returned true" % (i, late[0] - c["tret"], i))
+    for x in stop + [d for d in drains if d["ok"]]:
+        for i, runs in H.items():
+            for ts, te in runs:
+                if ts > x["tret"]:
+                    bad.append("RT4: handler %d starts %d ns after %s() returned" % (i, ts - x["tret"], x["what"]))
+                elif te > x["tret"] and x["what"] == "stop":
+                    bad.append("RT4: handler %d is still running %d ns after stop() returned" % (i, te - x["tret"]))
+    if stop:
+        t = stop[0]["tret"]
+        for i, sc in sched.items():
+            if sc["tcall"] > t:
+                bad.append("RT5: schedule() called after stop() returned was accepted (id %d): it can never fire" % i)
+        stats["refused_after_stop"] = sum(1 for r in refused if r["tcall"] > t)
+        # nothing silently lost while the service ran: generous slack (a watchdog, not a latency claim)
+        slack = (400 if kind == "wheel" else 150) * NS
+        horizon = min([stop[0]["tcall"]] + [d["tcall"] for d in drains])
+        for i, sc in sched.items():
+            if sc["per"] or i in H:
+                continue
+            if any(c["ok"] for c in cancels.get(i, [])) or any(r["ok"] for r in resch.get(i, [])):
+                continue
+            if sc["tret"] + sc["delay"] + slack < horizon and kind != "f23":
+                bad.append("RT6: one-shot timer %d (delay %d ns, scheduled at %d) never fired although the service ran until %d" % (i, sc["delay"], sc["tret"], horizon))
+    else:
+        bad.append("RT0: no stop event in the history")
+    return bad, stats
+
+
 # ------------------------------------------------------------------ run
+def replay(ctx):
+    """Re-run a replay file: wheel / service op lists go through lockstep + monitor again, a real-time scenario is re-run."""
+    obj = json.load(open(ctx.replay))
+    ctx.translate(["timer"])
+    ctx.lake_build(MODULES)
+    still = False
+    if obj.get("scenario"):
+        hr = ctx.build_harness("harness/c08_rt.cpp", sanitize=True)
+        if hr:
+            out, rc, err = ctx.run_lines([hr], [obj["scenario"]], timeout=600)
+            kind = obj["scenario"].split()[0]
+            fails, _ = monitor_rt(kind, out[0].partition(" | ")[2] if out else "")
+            for f in fails:
+                print("PROPERTY FAILS:", f[:300])
+            still = bool(fails)
+    elif obj.get("ops"):
+        ops = obj["ops"]
+        svc = ops[0].split()[0] == "reset" and len(ops[0].split()) == 4 and obj.get("category", "").startswith("svc") or obj.get("kind") == "svc"
+        src, comp, mon = ("harness/c08_svc.cpp", "tsvc", monitor_svc) if svc else ("harness/c08_wheel.cpp", "wheel", monitor_wheel)
+        hb = ctx.build_harness(src, sanitize=True)
+        if hb:
+            c = {"cat": obj.get("category", "corpus"), "ops": ops, "geom": obj.get("geom") or [int(x) for x in ops[0].split()[1:4]], "limits": obj.get("limits")}
+            if c["limits"] is None:
+                c.pop("limits")
+            (c, impl, model), = ctx.lockstep(comp, hb, [c])
+            for o, a, b in zip(ops, impl, model):
+                print("op    %s\n impl  %s\n model %s" % (o[:200], a[:200], b[:200]))
+            fails = mon(c, impl)
+            for f in fails:
+                print("PROPERTY FAILS:", f[:300])
+            still = bool(fails) or impl != model
+    else:
+        print("replay: nothing to run (kind=%s): %s" % (obj.get("kind"), obj.get("what", "")[:200]))
+        still = bool(ctx.violations)
+    print("replay: %s" % ("still failing" if still or ctx.violations else "no longer failing"))
+    import shutil
+    shutil.rmtree(ctx.work, ignore_errors=True)
+    return 1 if still or ctx.violations else 0
+
+
 def run(ctx: Ctx):
+    if ctx.replay:
+        return replay(ctx)
     quick = ctx.tier == "quick"
     scale = 1 if quick else 20
     rng = ctx.rng
     ctx.translate(["timer"])
-    ok_build = ctx.lake_build(MODULES + ["iora_model"])
+    ok_build = ctx.lake_build(MODULES)
     if ok_build:
         ctx.audit(MODULES, OBLIGATIONS)
         if not quick:
-            ctx.leanchecker(MODULES + ["IoraModel.Lemmas.TimingWheel", "IoraModel.Model.TimingWheel"])
+            ctx.leanchecker(MODULES + ["IoraModel.Lemmas.TimingWheel", "IoraModel.Model.TimingWheel", "IoraModel.Lemmas.TimerService", "IoraModel.Model.TimerService"])
     else:
         ctx.cov["obligations"] = len(OBLIGATIONS)
     hb = ctx.build_harness("harness/c08_wheel.cpp", sanitize=True)
     hs = ctx.build_harness("harness/c08_svc.cpp", sanitize=True)
     dist = {}
-    have_model = os.path.exists(ctx.model_bin())
+    have_model = ok_build
     if hb and have_model:
         r = rng.fork("wheel")
         cases = load_corpus("wheel") + boundary_cases() + [gen_wheel_case(r, i) for i in range(3000 * scale)]
@@ -518,6 +697,28 @@ def run(ctx: Ctx):
         judge(ctx, hs, res, monitor_svc, "service lockstep (harness/c08_svc.cpp vs Model/TimerService.lean)", dist, rng,
               stats=svc_stats, tot=tot, nontrivial=lambda st: st["starts"] > 0)
         ctx.extra["svc_totals"] = tot
+    hr = ctx.build_harness("harness/c08_rt.cpp", sanitize=True)
+    if hr:
+        sc = rt_scenarios(rng.fork("rt"), 1 if quick else 4)
+        t_rt = __import__("time").time()
+        out, rc, err = ctx.run_lines([hr], ["%s %d %d" % x for x in sc], timeout=600)
+        ctx.extra["rt_wall_s"] = round(__import__("time").time() - t_rt, 1)
+        tot = {"scheduled": 0, "handlers": 0, "cancel_ok": 0, "refused_after_stop": 0}
+        if rc != 0 or len(out) != len(sc):
+            ctx.violation("property", "RT0: the real-time harness died (rc=%s, %d/%d scenarios): %s" % (rc, len(out), len(sc), err[-300:]),
+                          {"scenarios": sc, "stderr": err[-2000:]}, found_input=True)
+        for x, line in zip(sc, out):
+            head, _, text = line.partition(" | ")
+            fails, st = monitor_rt(x[0], text)
+            dist["rt-" + x[0]] = dist.get("rt-" + x[0], 0) + 1
+            for k in tot:
+                tot[k] += st.get(k, 0)
+            ctx.count_case("rt %s %d" % (x[0], x[1]), nontrivial=st.get("handlers", 0) > 0)
+            ctx.cov["traces_validated_against_impl"] += 1
+            if fails:
+                ctx.violation("property", fails[0], {"scenario": "%s %d %d" % x, "failures": fails[:6], "history": text[:20000],
+                                                     "how": "echo '%s %d %d' | <harness c08_rt>  (real time: re-run to re-validate)" % x}, found_input=True)
+        ctx.extra["rt_totals"] = tot
     ctx.extra["input_distribution"] = dist
     ctx.extra["repo_tree_sha"] = ctx.repo_tree_sha(ANCHOR_FILES)
     ctx.extra["not_proved"] = []
